@@ -296,6 +296,8 @@ def _hd_model(cx, rep, port, p, mod, fd):
         ('no input header', 'no header, no alias', None, None, [idx('a', 0), None], None),
         ('no input header', 'no header, alias', None, None, [idx('a', 0), qci(alias_name=L1), None], ['col1', L1, 'col3']),
         ('no input header', 'no header, alias and star', None, None, [star(None), qci(alias_name=L1)], 'RbqlParsingError'),
+        ('no input header', 'no header, alias and a.*', None, None, [qci(alias_name=L1), star('a')], 'RbqlParsingError'),
+        ('no input header', 'no header, alias and b.*', None, None, [star('b'), qci(alias_name=L1)], 'RbqlParsingError'),
         ('alias detection', 'unparsed columns only', None, None, [None, None], None),
         ('alias detection', 'unparsed column next to an alias', None, None, [None, qci(alias_name=L1)], ['col1', L1]),
     ]
@@ -1288,3 +1290,49 @@ def rule_hd_emit(cx, rep, port):
         rep.violated('header emission', where[-1].ast if where else fin, 'the header is kept in `{}` for later, and finish() has a normal path (through line {}) that neither emits it nor has tested that nothing is pending: a query with an empty result loses its header line on that path'.format(attr, where[-1].lineno if where else fin.lineno))
     else:
         rep.holds('header emission', pend[0], 'the deferred header `{}` is emitted, or tested to be absent, on every normal path through finish()'.format(attr))
+
+
+def rule_hd_spantrim(cx, rep, port='js'):
+    """javascript header inference works on the text of each select item: the blanks around an item are removed with trim(), i.e. every
+    character the expression parser itself skips.  A helper that removes plain spaces only leaves a tab / no-break space / line break
+    in front of `a.name`, and the item is then named colK although it is a plain column."""
+    from .. import regexlang as R
+    p = cx.js
+    mod = cx.engine_mod('js')
+    n = 0
+    for fname in ('parse_root_bracket_level_text_spans', 'column_info_from_text_span'):
+        fd = p.func(mod, fname, required=False)
+        if fd is None:
+            continue
+        trims = [c for c in ast.walk(fd) if isinstance(c, ast.Call) and isinstance(c.func, ast.Attribute) and c.func.attr == 'trim' and not c.args]
+        weak = []
+        cands = [c for c in ast.walk(fd) if isinstance(c, ast.Call) and isinstance(c.func, ast.Name)] + [ast.Call(func=a, args=[], keywords=[]) for c in ast.walk(fd) if isinstance(c, ast.Call) and isinstance(c.func, ast.Attribute) and c.func.attr == 'map' for a in c.args if isinstance(a, ast.Name)]
+        for c in cands:
+            h = p.func(mod, c.func.id, required=False)
+            if h is None or len(h.args.args) != 1:
+                continue
+            # a helper that is one anchored replace of its argument by the empty string
+            reps = [x for x in ast.walk(h) if isinstance(x, ast.Call) and isinstance(x.func, ast.Attribute) and x.func.attr == 'replace' and len(x.args) == 2 and isinstance(x.args[0], ast.Call) and dotted(x.args[0].func) == '__regex__' and isinstance(x.args[1], ast.Constant) and x.args[1].value == '']
+            if len(reps) != 1 or not is_name(reps[0].func.value, h.args.args[0].arg):
+                continue
+            pat = reps[0].args[0].args[0].value
+            try:
+                # `^X|X$`: the alternatives of a both-ends strip, each anchored at one end
+                alts = pat.split('|') if not any(ch in pat for ch in '()') else [pat]
+                langs = [R.Lang(a_.lstrip('^').rstrip('$'), flavour='js') for a_ in alts]
+                missed = [repr(w) for w in ('\t', ' ', '\n') if not any(R.accepts(l_, w) for l_ in langs)]
+                blanks = any(R.accepts(l_, ' ') for l_ in langs)
+            except R.Unsupported:
+                continue
+            if blanks and missed:
+                weak.append((c, h.name, pat, missed))
+        if weak and not trims:
+            c, hn, pat, missed = weak[0]
+            n += 1
+            rep.violated(fname + ' item text', fd, 'select items are stripped with {}() (`{}`), which leaves {} around an item: such an item is no longer recognised as a plain column and is named colK'.format(hn, pat, ', '.join(missed)))
+        elif trims:
+            n += 1
+            rep.holds(fname + ' item text', trims[0], 'select items are stripped with trim()')
+        else:
+            rep.undecided(fname + ' item text', fd, 'how the blanks around a select item are removed was not recognised')
+    rep.require_count('select item normalisations', n, 2, (p.files[mod], 0))
